@@ -221,6 +221,18 @@ def run(ctx):
                         ctx.violation("C13|%s|%s|%s" % (cname, meth, fname), "time form gives a different result than the trailing column",
                                       {"class": cname, "method": meth, "kw": kw, "form": fname, "x": Xq.tolist(), "time": list(tq),
                                        "observed": o[1] if o[0] == "err" else float(np.abs(o[1] - ref[1]).max())})
+                # history: the same NumPy time vector refilled in place between two calls means the NEW times
+                tbuf = np.array(tq, dtype=float, copy=True)
+                enc.outcome(lambda: f(Xq, tbuf, **kw))
+                tnew = np.asarray([2.0, 0.0, 1.0, 0.5, 0.0])
+                tbuf[...] = tnew
+                o1 = enc.outcome(lambda: flat(f(Xq, tbuf, **kw)))
+                o2 = enc.outcome(lambda: flat(f(np.concatenate([Xq, tnew[:, None]], axis=1), **kw)))
+                real_calls += 3
+                if o1[0] != "ok" or o2[0] != "ok" or not np.array_equal(o1[1], o2[1]):
+                    ctx.violation("C13|%s|%s|time-buffer-reuse" % (cname, meth), "a time vector refilled in place is not read again",
+                                  {"class": cname, "method": meth, "kw": kw, "x": Xq.tolist(), "time_first": list(tq), "time_now": list(tnew),
+                                   "sequence": "t = time.copy(); p.%s(x, t); t[...] = time_now; p.%s(x, t) vs the trailing-column form with time_now" % (meth, meth)})
                 # scalar forms against an explicit constant column
                 t0 = 1.0
                 refs = enc.outcome(lambda: flat(f(np.concatenate([Xq, np.full((q, 1), t0)], axis=1), **kw)))
